@@ -18,6 +18,7 @@ import streams
 
 PID = "C19"
 PERIODS = (-1, 0, 1, 2, 3, 4, 7, 8, 15, 16)
+QUICK_PERIODS = (-1, 0, 1, 2, 3, 4, 8, 16)
 
 
 def nmax(p):
@@ -39,6 +40,9 @@ def displayed(pkts):
 
 
 def cfgkey(a):
+    if int(a["intra_period_length"]) == 0:
+        # every picture is intra: the prediction structure (hierarchical levels, overlays) plays no role
+        return "ip=0,rt=%s" % a["intra_refresh_type"]
     return "hl=%s,ip=%s,rt=%s,ov=%s" % (a["hierarchical_levels"], a["intra_period_length"], a["intra_refresh_type"], a["enable_overlays"])
 
 
@@ -120,7 +124,7 @@ def case(item):
 
 def cases_for(tier):
     cs = []
-    for p, rt, hl, ov in itertools.product(PERIODS, (1, 2), range(0, 5), (0, 1)):
+    for p, rt, hl, ov in itertools.product(PERIODS if tier == "thorough" else QUICK_PERIODS, (1, 2), range(0, 5), (0, 1)):
         top = nmax(p) if tier == "thorough" else min(nmax(p), max(p, 0) + 4)
         for n in range(1, top + 1):
             cs.append(("hl=%d,ip=%d,rt=%d,ov=%d/n=%d" % (hl, p, rt, ov, n),
